@@ -106,6 +106,24 @@ pub fn c02(g: &mut Gen) {
             g.group(lines);
         }
     }
+    // large and heavily skewed sets: a dense cluster plus far outliers, so that `high` has several hundred thousand bits
+    // and select superblocks of both kinds (many set bits close together; one superblock spanning a huge gap)
+    if g.thorough {
+        for (n, start, cluster, outliers) in [
+            (1u64 << 30, 0u64, 100_000u64, vec![(1u64 << 30) - 1]),
+            (1u64 << 30, 0, 150_000, vec![]),
+            (1u64 << 34, (1u64 << 33) + 5, 70_000, vec![3, 1u64 << 32, (1u64 << 34) - 2]),
+        ] {
+            let mut vals: Vec<u64> = (0..cluster).map(|i| start + i).collect();
+            vals.extend(outliers.iter()); vals.sort(); vals.dedup();
+            let m = vals.len() as u64;
+            let mut lines = vec![format!("sp A build {} 0 {}", n, vals_str(&vals))];
+            sp_queries(g, "A", n, &vals, samples, true, &mut lines);
+            for r in [cluster - 1, cluster, m - 2, m - 1, 4095, 4096, 4097, 8192, 65535, 65536, 98303, 98304, 98305] { if r <= m { lines.push(format!("sp A select {}", r)); } }
+            for x in [start, start + cluster - 1, start + cluster, start + cluster + 1, start + cluster / 2, n - 2, n - 1] { lines.push(format!("sp A rank {}", x)); lines.push(format!("sp A pred {}", x)); lines.push(format!("sp A succ {}", x)); if x < n { lines.push(format!("sp A get {}", x)); } }
+            g.group(lines);
+        }
+    }
     // empty vectors over moderately large universes (w = 1, so the bucket sequence has n/2 bits)
     for n in [1u64 << 16, (1u64 << 20) + 1] {
         let mut lines = vec![format!("sp A build {} 0", n)];
@@ -170,8 +188,25 @@ pub fn c15(g: &mut Gen) {
         lines.push("sp A ser".to_string());
         g.group(lines);
     }
+    // multisets over universes in the top part of the usize range (bucket arithmetic must not overflow)
+    for (n, vals) in [
+        (MAXU, vec![0u64, 0, 7, 7, 7, 1 << 40, MAXU - 3, MAXU - 1, MAXU - 1]),
+        (MAXU, vec![5u64]), (MAXU - 1, vec![MAXU - 2, MAXU - 2]), ((1u64 << 63) + (1u64 << 59), vec![12345]),
+        ((1u64 << 63) + 1, vec![0, 1u64 << 63, 1u64 << 63]), (MAXU, (0..100).map(|i| (i / 3) * ((1u64 << 57) + 11)).collect::<Vec<u64>>()),
+    ] {
+        let mut lines = vec![format!("sp A build {} 1 {}", n, vals_str(&vals))];
+        sp_queries(g, "A", n, &vals, 10, false, &mut lines);
+        lines.push(format!("sp A it one : {} l n b", vec!["n b"; vals.len() / 2 + 1].join(" ")));
+        lines.push("sp A ser".to_string());
+        g.group(lines);
+    }
     // try_from_iter accepts exactly the non-decreasing sequences and sizes the universe to last + 1
     let mut lines = Vec::new();
+    for vals in [vec![3u64, 3, 1 << 62, MAXU - 1, MAXU - 1], vec![MAXU - 1], vec![0, MAXU - 1], vec![(1u64 << 63) + 5, (1u64 << 63) + 5, (1u64 << 63) + 9]] {
+        lines.push(format!("sp I from_iter {}", vals_str(&vals)));
+        lines.push("sp I len".to_string()); lines.push("sp I ones".to_string()); lines.push("sp I select 0".to_string());
+        lines.push(format!("sp I select {}", vals.len() - 1)); lines.push(format!("sp I rank {}", MAXU)); lines.push(format!("sp I pred {}", MAXU)); lines.push("sp I succ 4".to_string());
+    }
     for vals in [vec![], vec![0u64], vec![5], vec![1, 1, 1], vec![0, 3, 3, 9], vec![3, 2], vec![1, 5, 4, 9], vec![7, 7, 6], vec![0, 0, 0, 0, 0, 0, 0, 0]] {
         lines.push(format!("sp I from_iter {}", vals_str(&vals)));
         if vals.windows(2).all(|w| w[0] <= w[1]) { lines.push("sp I len".to_string()); lines.push("sp I ones".to_string()); lines.push("sp I select 0".to_string()); }
@@ -194,6 +229,20 @@ pub fn c16(g: &mut Gen) {
         g.group(lines);
     }
     g.group(vec!["sp - builder 5 6 0 : t0".to_string(), "sp - builder 5 6 1 : t0 t0 t0 t0 t0 t0 c".to_string()]);
+    // builders over universes up to usize::MAX: parameters, acceptance and conversion must not depend on the magnitude
+    for (n, cap, multi) in [(MAXU, 3u64, 0), (MAXU, 100, 0), (MAXU, 2, 1), ((1u64 << 63) + (1u64 << 59), 1, 0), ((1u64 << 63) + 7, 4, 1), (MAXU - 1, 1, 0)] {
+        let step = n / (cap + 1);
+        let good: Vec<String> = (0..cap).map(|i| format!("t{}", i * step + (i % 2))).collect();
+        let mut lines = vec![format!("sp - builder {} {} {} : {} c", n, cap, multi, good.join(" "))];
+        lines.push(format!("sp - builder {} {} {} : {} t{} c", n, cap, multi, good.join(" "), n - 1));
+        lines.push(format!("sp - builder {} {} {} : t{} t{} t0 c", n, cap, multi, n - 1, n));
+        lines.push(format!("sp - builder {} {} {} : t{} c", n, cap, multi, MAXU));
+        lines.push(format!("sp B build {} {} {}", n, multi, (0..cap).map(|i| (i * step + (i % 2)).to_string()).collect::<Vec<_>>().join(" ")));
+        lines.push("sp B len".to_string()); lines.push("sp B ones".to_string());
+        for r in [0, cap / 2, cap.saturating_sub(1), cap] { lines.push(format!("sp B select {}", r)); }
+        for x in [0u64, step, n / 2, n - 1, n] { lines.push(format!("sp B rank {}", x)); lines.push(format!("sp B succ {}", x)); }
+        g.group(lines);
+    }
     crate::gen_rl::c16_rl(g);
 }
 
